@@ -21,7 +21,7 @@ EXPLANATION = (
     "truncation. [FP-ROUNDTRIP] the segmenter's abstract frames are fed in order (byte-reversed, as every front-end does) to _decode_fast_message interpreted "
     "over the same domain with an abstract buffer map: nothing is delivered before the last frame, then exactly one delivery carries payload[0..L-1], and the "
     "record is deleted (boundary lengths x counter states in the quick tier, all 224 x 8 in the thorough tier; every branch of the reassembler depends on counters "
-    "and lengths only, so the interpretation is total). UNDECIDED: payloads longer than 223 bytes; delivery through the public entry points with a real PGN's "
+    "and lengths only, so the interpretation is total). The decoder-side structural rules (FP-HDR-DEC, FP-STRIP) and RA-* are confirmations since the third round: the verdict comes from FP-ROUNDTRIP (headers concrete for every counter value) and from the interpreted frame histories of rules_reasm.py. UNDECIDED: payloads longer than 223 bytes; delivery through the public entry points with a real PGN's "
     "field decoder on top (C01/C07)."
 )
 ASSUMPTIONS = ["CPython ast parser", "absint.py transfer functions (bytes concatenation, slicing, bytes([..]), int arithmetic on shape integers)",
